@@ -23,6 +23,9 @@ pub struct Resolver<'a> {
     in_func_call_name: bool,
 
     pub id: IdGenerator<usize>,
+
+    /// Ids of named values (constants, arguments) that have been used already.
+    inlined_values: std::collections::HashSet<usize>,
 }
 
 #[derive(Default, Clone)]
@@ -36,6 +39,7 @@ impl Resolver<'_> {
             default_namespace: None,
             in_func_call_name: false,
             id: IdGenerator::new(),
+            inlined_values: Default::default(),
         }
     }
 }
